@@ -482,6 +482,7 @@ func (h *harness) fullServer(rng *rand.Rand, seqWorlds, concWorlds int) {
 			return
 		}
 	}
+	h.streamMalformed(t, idBase, verBase)
 	r.Count("full_server_variant_runs", 1)
 }
 
@@ -544,6 +545,10 @@ func main() {
 		h.concWorldD(genParams(rng, alphaN, mr, concEvents, streams, false), 3, "full-events", i, nd)
 	}
 	lap("concurrent_full_events")
+	h.oneFieldGrid()
+	lap("one_field_grid")
+	h.regionStorageWorlds(rand.New(rand.NewSource(r.ShardSeed()^0x1e7e1)), r.Pick(12, 60))
+	lap("region_storage")
 	h.racingPairs(rand.New(rand.NewSource(r.ShardSeed()^0x7ace)), r.Pick(640, 3200))
 	lap("racing_pairs")
 	h.racingGrid(rand.New(rand.NewSource(r.ShardSeed()^0x961d)), r.Pick(480, 2400))
